@@ -179,3 +179,13 @@ Definition fmt_g6 (x : fv) : bytes :=
       let '(d, x) := if 1000000 <=? d then (100000, x + 1) else (d, x) in
       fmt_g_digits neg (strip_trailing_zeros (digits_of d)) (x + 1)
   end.
+
+(* the same float64 value and sign (the harness writes mantissas without trailing zero bits, the
+   model's conversions do not normalise): used by the correspondence files only *)
+Definition fv_same (x y : fv) : bool :=
+  match x, y with
+  | FNan, FNan => true
+  | FInf a, FInf b => Bool.eqb a b
+  | FFin a m e, FFin b m' e' => Bool.eqb a b && match fin_compare a m e b m' e' with Eq => true | _ => false end
+  | _, _ => false
+  end.
